@@ -46,8 +46,8 @@ theorem single_graph_nodup (D : List Quad) (hD : DataNodup D) (g : Option Term) 
 /-! ## Group graph patterns and solution modifiers -/
 
 /-- **eval_correct (group graph patterns).**  For `Body` patterns — BGP, UNION, FILTER, BIND,
-`GRAPH <iri>` arbitrarily nested, `GRAPH ?x { .. }` over `Inner` patterns when the dataset has a
-named graph, expressions on which the two expression evaluators agree (`ExprOK`) — the evaluator
+`GRAPH <iri>` arbitrarily nested, `GRAPH ?x { .. }` over `Inner` patterns (when the dataset has a
+named graph; directly under the projection, `Proj.graph`, on every dataset), expressions on which the two expression evaluators agree (`ExprOK`) — the evaluator
 and `eval(D(G), P)` produce related rows in the same order, with the same in-scope variables, or
 both refuse the same re-binding. -/
 theorem body_correct (D : List Quad) (hD : DataNodup D) {N : Prop} (hN : N → (graphNameSet D).isEmpty = false)
@@ -59,15 +59,17 @@ theorem body_correct (D : List Quad) (hD : DataNodup D) {N : Prop} (hN : N → (
 
 /-- **graph_var_correct.**  `GRAPH ?x { P }`: enumerating the de-duplicated graph names and evaluating
 `P` with `?x` *pre-bound* (`graph_rec`) gives the algebra's `⋃ₙ Join(eval(D(D[n]), P), {?x ↦ n})` —
-for `Inner` patterns (BGP / UNION / `GRAPH <iri>` / FILTERs that do not read `?x`) over a dataset
-with at least one named graph.  (Outside these hypotheses the two differ: findings
-C13-graph-var-prebound and C13-graph-var-no-named-graph.) -/
-theorem graph_var_correct (D : List Quad) (hD : DataNodup D) (hN : (graphNameSet D).isEmpty = false)
+for `Inner` patterns (BGP / UNION / `GRAPH <iri>` / FILTERs that do not read `?x`), over *every*
+duplicate-free dataset: without named graphs both sides have no solution (since commit d984918;
+before it the engine evaluated `P` once against the empty graph, fixed finding
+C13-graph-var-no-named-graph).  Outside `Inner` the two differ: finding C13-graph-var-prebound. -/
+theorem graph_var_correct (D : List Quad) (hD : DataNodup D)
     {x : Str} {p : GP} (hp : Inner x p) (g : Option Term) :
     ∃ r Ω, select D (.graph (.var x) p) [g] none = .ok r ∧
       eval D (.graph (.var x) p) (activeGraph D [g]) = .ok Ω ∧
-      List.Forall₂ RelRow r.rows Ω ∧ ∀ y, y ∈ r.vars ↔ y ∈ inScope (.graph (.var x) p) :=
-  SparqlL.graph_var_correct D hD hN hp g
+      List.Forall₂ RelRow r.rows Ω ∧ (∀ y, y ∈ r.vars → y ∈ inScope (.graph (.var x) p)) ∧
+      ((graphNameSet D).isEmpty = false → ∀ y, y ∈ r.vars ↔ y ∈ inScope (.graph (.var x) p)) :=
+  SparqlL.graph_var_correct D hD hp g
 
 theorem inner_inFragment {x : Str} {p : GP} (h : Inner x p) : inFragment p = true := by
   induction h <;> simp_all [inFragment]
@@ -86,9 +88,13 @@ theorem top_inFragment {N : Prop} {p : GP} (h : Top N p) : inFragment p = true :
   | proj h => cases h with
     | mk xs hb => simpa [inFragment] using body_inFragment hb
     | ord xs hb => simpa [inFragment] using body_inFragment hb
+    | graph x xs hi => simpa [inFragment] using inner_inFragment hi
+    | graphOrd x xs hi => simpa [inFragment] using inner_inFragment hi
   | distinct h => cases h with
     | mk xs hb => simpa [inFragment] using body_inFragment hb
     | ord xs hb => simpa [inFragment] using body_inFragment hb
+    | graph x xs hi => simpa [inFragment] using inner_inFragment hi
+    | graphOrd x xs hi => simpa [inFragment] using inner_inFragment hi
   | slice _ _ _ ih => simpa [inFragment] using ih
 
 def specTable (xs : List Str) (Ω : List Mu) : List (List (Option Term)) :=
@@ -97,9 +103,9 @@ def specTable (xs : List Str) (Ω : List Mu) : List (List (Option Term)) :=
 /-- **eval_correct_partial (whole SELECT queries).**  For `Slice? (Distinct? (Project (OrderBy? body)))`
 with no dataset clause the table the caller receives is the algebra's table (same variables, same
 rows, same multiplicities — here even the same order, the model's), or both sides refuse.
-*Partial*: sub-selects, BIND / nested `GRAPH ?y` / filters reading `?x` inside `GRAPH ?x`, and
-`GRAPH ?x` over a dataset without named graphs are not covered, and the expressions must satisfy
-`ExprOK`; the unrestricted statement `EvalCorrectFull` is refuted below. -/
+*Partial*: sub-selects and BIND / nested `GRAPH ?y` / filters reading `?x` inside `GRAPH ?x` are not
+covered (a `GRAPH ?x` that is not the whole group needs a named graph in the dataset, only for the
+variable list), and the expressions must satisfy `ExprOK`; the unrestricted statement `EvalCorrectFull` is refuted below. -/
 theorem eval_correct_partial (D : List Quad) (hD : DataNodup D) {N : Prop} (hN : N → (graphNameSet D).isEmpty = false)
     {p : GP} (hp : Top N p) :
     (∃ r Ω, Sparql.query D (.select none p) = .rows r ∧ evalQuery D (.select none p) = .rows (inScope p) Ω ∧
@@ -133,6 +139,20 @@ theorem ask_correct (D : List Quad) (hD : DataNodup D) {N : Prop} (hN : N → (g
   · right
     rw [activeGraph_default] at a2
     exact ⟨x, by simp [Sparql.query, execNew, a1], by simp [evalQuery, a2, body_inFragment hp]⟩
+
+/-- `ASK { GRAPH ?x { P } }` is answered as the algebra answers it, on every duplicate-free dataset -/
+theorem ask_graph_var_correct (D : List Quad) (hD : DataNodup D) {x : Str} {p : GP} (hp : Inner x p) :
+    ∃ a, Sparql.query D (.ask none (.graph (.var x) p)) = .bool a ∧
+      evalQuery D (.ask none (.graph (.var x) p)) = .bool a := by
+  obtain ⟨r, Ω, a1, a2, a3, _⟩ := SparqlL.graph_var_correct D hD hp none
+  rw [activeGraph_default] at a2
+  have hf : inFragment (.graph (.var x) p) = true := by
+    simpa [inFragment] using inner_inFragment hp
+  refine ⟨!r.rows.isEmpty, by simp [Sparql.query, execNew, a1], ?_⟩
+  have hl := a3.length_eq
+  have : Ω.isEmpty = r.rows.isEmpty := by
+    cases hr : r.rows <;> cases hΩ : Ω <;> simp_all
+  simp [evalQuery, a2, this, hf]
 
 /-- **slice_sound.**  OFFSET/LIMIT returns a sub-list of the unsliced result of the right size. -/
 theorem slice_sound (D : List Quad) (p : GP) (start : Nat) (len : Option Nat) (gm : List (Option Term))
@@ -274,11 +294,21 @@ theorem no_panic (D : List Quad) (q : Query) : Sparql.query D q ≠ .err .panic 
 /-! ## Expressions -/
 
 /-- **exprOK_termlevel.**  BOUND, sameTerm, isIRI, isBlank, isLiteral over variables and constants,
-and their negations, evaluate identically in `expression.rs` and in §17: such FILTER / BIND
-expressions satisfy the hypothesis `ExprOK` of the theorems above.  (The rest of the core — `=`,
-`<`, `&&`, `||`, STR, LANG, DATATYPE — is tied by the differential; `&&`/`||` and the effective
-boolean value of ill-typed literals provably deviate, see below.) -/
+closed under `!`, `||` and `&&`, evaluate identically in `expression.rs` and in §17 — including the
+three-valued treatment of errors (`?unbound || true` is true on both sides since commit e4da433,
+fixed finding C13-logical-or-and-error): such FILTER / BIND expressions satisfy the hypothesis
+`ExprOK` of the theorems above.  (The rest of the core — `=`, `<`, STR, LANG, DATATYPE — is tied by
+the differential; the effective boolean value of ill-typed literals provably deviates, see below.) -/
 theorem exprOK_termlevel {e : Expr} (he : TermLevel e) : ExprOK e := exprOK_termLevel he
+
+/-- `||` / `&&` in the engine are the truth tables of §17.4.1.5/6 over effective boolean values with
+errors, whatever the operands: an operand that *raises* an error counts as an error value -/
+theorem or_and_tables (b : Binding) (l r : Expr) :
+    Sparql.evalExpr b (.or l r) =
+      (or3 ((Sparql.evalExpr b l).bind ER.isTruthy) ((Sparql.evalExpr b r).bind ER.isTruthy)).map erBool ∧
+    Sparql.evalExpr b (.and l r) =
+      (and3 ((Sparql.evalExpr b l).bind ER.isTruthy) ((Sparql.evalExpr b r).bind ER.isTruthy)).map erBool := by
+  constructor <;> simp only [Sparql.evalExpr, orAndLenient_true, if_true, orTable_eq_or3, andTable_eq_and3]
 
 /-! ## The unrestricted statement is false: kernel-checked witnesses of the known findings -/
 
@@ -307,11 +337,10 @@ theorem evalCorrectFull_refuted : ¬ EvalCorrectFull := by
   rw [dev_graph_prebind.2] at this
   cases this
 
-/-- finding C13-graph-var-no-named-graph: `ASK { GRAPH ?g { } }` on the empty dataset.
-(Stated for the code as it is: once notes/fixes/C13-graph-var-no-named-graph.diff is applied the
-extractor sets `graphEmptyFixed`, the model follows, and this witness has to go with the finding.) -/
-theorem dev_empty_named :
-    Sparql.query [] (.ask none (.graph (.var "g".toList) (.bgp []))) = .bool true ∧
+/-- fixed finding C13-graph-var-no-named-graph (commit d984918): `ASK { GRAPH ?g { } }` on the empty
+dataset is now false on both sides (it was true in the engine) -/
+theorem fixed_empty_named :
+    Sparql.query [] (.ask none (.graph (.var "g".toList) (.bgp []))) = .bool false ∧
     evalQuery [] (.ask none (.graph (.var "g".toList) (.bgp []))) = .bool false := ⟨rfl, rfl⟩
 
 /-- finding C13-subselect-leak: `ASK { { SELECT ?s { ?s ?p ?o } } FILTER(BOUND(?p)) }` -/
@@ -320,13 +349,17 @@ theorem dev_proj_leak :
     let p := GP.filter (.bound "p".toList) (.project (.bgp [spo]) ["s".toList])
     Sparql.query D (.ask none p) = .bool true ∧ evalQuery D (.ask none p) = .bool false := ⟨rfl, rfl⟩
 
-/-- finding C13-logical-or-and-error: `?x || true` with `?x` unbound.  (As `dev_empty_named`: goes
-away with notes/fixes/C13-logical-or-and-error.diff, which sets `orAndLenient`.) -/
-theorem dev_or_strict : ¬ ExprOK (.or (.var "x".toList) (.const (boolTerm true))) := by
-  intro h
-  have := (h {} [] (fun _ => rfl)).1
-  revert this
-  decide
+/-- fixed finding C13-logical-or-and-error (commit e4da433): with `?x` unbound, `?x || true` and
+`!(?x && false)` now keep the row (they were errors in the engine, true in §17), and an `||` with
+an erroring operand — `sameTerm(?x, ?x) || !BOUND(?y)` — satisfies `ExprOK` -/
+theorem fixed_or_strict :
+    filterKeeps (.or (.var "x".toList) (.const (boolTerm true))) {} = true ∧
+    holds (.or (.var "x".toList) (.const (boolTerm true))) [] = true ∧
+    filterKeeps (.not (.and (.var "x".toList) (.const (boolTerm false)))) {} = true ∧
+    holds (.not (.and (.var "x".toList) (.const (boolTerm false)))) [] = true ∧
+    ExprOK (.or (.sameTerm (.var "x".toList) (.var "x".toList)) (.not (.bound "y".toList))) :=
+  ⟨by decide, by decide, by decide, by decide,
+   exprOK_termLevel (.or (.sameTerm (.var _) (.var _)) (.not (.bound _)))⟩
 
 /-- finding C13-ebv-illtyped-integer: `!"1a"^^xsd:integer` -/
 theorem dev_ebv_illtyped : ¬ ExprOK (.not (.const (.lit "1a".toList xsdInteger))) := by
@@ -360,13 +393,21 @@ example : Top True (.slice (.distinct (.project (.orderBy
     (.extend _ _ (exprOK_termLevel (.isIri (.var _))) (.graphIri _ (.bgp _))))
     (.graphVar _ trivial (.filter _ (exprOK_termLevel (.isIri (.var _))) (by decide) (.bgp _))))))
 
-/-- a dataset with a named graph, as the `GRAPH ?x` case requires -/
+/-- `SELECT DISTINCT ?g { GRAPH ?g { { ?s ?p ?o } UNION { ?o ?p ?s } FILTER(BOUND(?s) || !isIRI(?o)) } }`:
+no hypothesis on the dataset (`N := False`) -/
+example : Top False (.distinct (.project (.graph (.var "g".toList)
+    (.filter (.or (.bound "s".toList) (.not (.call .isIri (.var "o".toList))))
+      (.union (.bgp [spo]) (.bgp [⟨vT "o", vT "p", vT "s"⟩])))) ["g".toList])) :=
+  .distinct (.graph _ _ (.filter _ (exprOK_termLevel (.or (.bound _) (.not (.isIri (.var _))))) (by decide)
+    (.union (.bgp _) (.bgp _))))
+
+/-- a dataset with a named graph, as a `GRAPH ?x` below UNION / FILTER / BIND requires -/
 example : (graphNameSet [q (iriT "x:a") (iriT "x:p") (iriT "x:b") (some (iriT "x:g1"))]).isEmpty = false := by decide
 
 /-! ## The attribution tool -/
 
 /-- **evalD_none.**  the evaluator with switchable deviations that the driver uses to *attribute*
-oracle failures to known findings is, with every switch off, the specification itself -/
+oracle failures to known findings (and regressions to fixed ones) is, with every switch off, the specification itself -/
 theorem evalD_none (D : List Quad) (qq : Query) : SparqlDev.evalQueryD {} D qq = evalQuery D qq :=
   evalQueryD_none D qq
 
